@@ -132,6 +132,39 @@ impl<'a> Cur<'a> {
 
 /// Splits complete frames off the front of `buf`; returns (id, body) pairs and the number of
 /// bytes consumed. A malformed length prefix stops the split (the rest stays in the buffer).
+/// Java "modified UTF-8" (DataInput): NUL as C0 80, supplementary characters as two 3-byte surrogates, no 4-byte forms.
+pub fn mutf8_decode(b: &[u8]) -> Option<String> {
+    let mut units: Vec<u16> = Vec::new();
+    let mut i = 0;
+    while i < b.len() {
+        let x = b[i];
+        if x & 0x80 == 0 {
+            if x == 0 {
+                return None;
+            }
+            units.push(x as u16);
+            i += 1;
+        } else if x & 0xE0 == 0xC0 {
+            let y = *b.get(i + 1)?;
+            if y & 0xC0 != 0x80 {
+                return None;
+            }
+            units.push((((x & 0x1F) as u16) << 6) | (y & 0x3F) as u16);
+            i += 2;
+        } else if x & 0xF0 == 0xE0 {
+            let (y, z) = (*b.get(i + 1)?, *b.get(i + 2)?);
+            if y & 0xC0 != 0x80 || z & 0xC0 != 0x80 {
+                return None;
+            }
+            units.push((((x & 0x0F) as u16) << 12) | (((y & 0x3F) as u16) << 6) | (z & 0x3F) as u16);
+            i += 3;
+        } else {
+            return None;
+        }
+    }
+    String::from_utf16(&units).ok()
+}
+
 pub fn split_frames(buf: &[u8]) -> (Vec<(i32, Vec<u8>)>, usize) {
     let mut out = Vec::new();
     let mut pos = 0;
